@@ -635,8 +635,12 @@ def frames_of(case):
     return fr
 
 
+FOCUS = {"C18": "pop", "C17": "queue", "C12": "sync"}
+
+
 def frames_runs(ctx, n_quick, n_thorough, fam="frames", model=True):
     runs = []
+    fenv = {"MPBH_FOCUS": FOCUS[ctx.prop]} if ctx.prop in FOCUS else None
     for sc in corpus_scripts(ctx.prop, fam):
         for rep in range(3 if ctx.tier == "quick" else 10):
             runs.append(ctx.run_family(fam, 0, extra=sc, tag=".corpus%d." % rep + os.path.basename(sc), model=model, model_family="frames"))
@@ -647,10 +651,10 @@ def frames_runs(ctx, n_quick, n_thorough, fam="frames", model=True):
             runs.append(ctx.run_family(fam, 0, extra=sc, tag=".replay", model=model, model_family="frames"))
             return runs
     if ctx.tier == "quick":
-        runs.append(ctx.run_family(fam, n_quick, model=model, model_family="frames"))
+        runs.append(ctx.run_family(fam, n_quick, model=model, model_family="frames", env=fenv))
     else:
         for i in range(8):
-            runs.append(ctx.run_family(fam, n_thorough // 8, seed=ctx.seed * 1000 + i, model=model, model_family="frames"))
+            runs.append(ctx.run_family(fam, n_thorough // 8, seed=ctx.seed * 1000 + i, model=model, model_family="frames", env=fenv))
     return runs
 
 
